@@ -37,7 +37,7 @@ def run(ctx):
         res = vlib.eval_cases(d)
         ctx.rules.append("end to end: real SwapService with the real file-backed policy.Policy; maker roles x btc/lbtc x endings (csv, cancel+csv, paid, coop, csv with unwritable policy file); afterwards both request kinds from the peer, SwapOut and SwapIn towards it, request_poll/poll from it and a forced poll round on the real peer-sync wired to the same policy; an innocent control peer")
         ctx.absorb(res, "e2e", signature=sig, describe=describe)
-    n = 100 if ctx.quick else 1200
+    n = 90 if ctx.quick else 1200
     d = ctx.harness("fsm", args=["-n", n] + MON)
     if d is not None:
         res = vlib.eval_cases(d)
